@@ -60,7 +60,7 @@ def cases(tier, seed, info):
     # code -> spec direction: random sequences on random trees
     m = 40 if tier == 'quick' else 6000
     kinds = ['list', 'all', 'count', 'plid', 'src', 'srcex', 'id', 'bmcid', 'listhex', 'allrev', 'listext',
-             'delete', 'delete', 'deleteall', 'json', 'jsonout', 'jsonclean', 'jsoncleanext', 'jsoncleanext', 'jsonext',
+             'delete', 'delete', 'deleteall', 'deleteall_ext', 'delete_ext', 'json', 'jsonout', 'jsonclean', 'jsoncleanext', 'jsoncleanext', 'jsonext',
              'file', 'fileclean', 'filehex', 'emptypath_deleteall', 'emptypath_delete', 'emptypath_json',
              'dotdot_deleteall', 'dotdot_delete',
              'list+deleteall', 'count+delete', 'deletebadid', 'all+deleteall', 'plid+delete']
@@ -70,7 +70,7 @@ def cases(tier, seed, info):
         for _ in range(rng.randint(5, 8)):
             kd = rng.choice(kinds)
             c = dict(k=kd)
-            if kd in ('id', 'delete', 'count+delete', 'plid+delete', 'plid'):
+            if kd in ('id', 'delete', 'delete_ext', 'count+delete', 'plid+delete', 'plid', 'emptypath_delete', 'dotdot_delete'):
                 c['id'] = rng.choice([1, 1, 2, 3, 4, 5, 5, 6])
             if kd in ('file', 'fileclean', 'filehex'):
                 c['f'] = rng.choice(tops)
@@ -265,6 +265,9 @@ def argv_for(c, root, names, rng):
         'listhex': base + ['-l', '-x', '-E'], 'allrev': base + ['-a', '-r', '-E'],
         'listext': base + ['-l', '-e', '.pel', '-H'],
         'delete': base + ['-d', idstr], 'deleteall': base + ['-D'],
+        # options that mean something to OTHER modes ride along (-e, -r, -x, -H): the delete options do what they do
+        'deleteall_ext': base + rng.choice([['-D', '-e', '.pel'], ['-e', '.json', '--delete-all'], ['-D', '-r', '-x'], ['-H', '-D', '-e', '.bin']]),
+        'delete_ext': base + rng.choice([['-d', idstr, '-e', '.bin'], ['-e', '.pel', '-r', '-d', idstr], ['-x', '-d', idstr]]),
         'json': base + ['-j'], 'jsonout': base + ['-j', '-o', os.path.join(root, 'out'), '-E'],
         'jsonclean': base + ['-j', '-o', os.path.join(root, 'out'), '-c'],
         # restricted to one extension: the other files of the directory are none of this run's business
